@@ -3,7 +3,7 @@
    the tables are regenerated from /repo on every run (Gen/Catcodes.v). *)
 From Coq Require Import List NArith Bool Arith.
 Import ListNotations.
-From Verif Require Import Val Catcodes Tokenizer Lexer TokenizerProofs.
+From Verif Require Import Val Catcodes Tokenizer Lexer TokenizerProofs LexItems LexItemsProofs.
 Local Open Scope N_scope.
 
 (* M1 + M2: for every input, every starting table and every schedule of category-code changes made between
@@ -53,6 +53,23 @@ Proof. exact set_catcode_length. Qed.
 Theorem C01_verbatim_identity :
   forall l, tokenize verbatim_table l = RToks (map (fun c => Tok (which_code verbatim_table c) [c]) l).
 Proof. intros l. exact (tokenize_only_letters verbatim_table l verbatim_only_letters). Qed.
+
+(* M6 (readable corollary): for every category table and every text built from lexical items -- significant characters,
+   runs of blanks, newlines, control words (followed by a non-letter), control symbols, comment lines, active characters --
+   the token stream is the one spelled out by [lex_items]: one token per significant character with the character's
+   category; a run of blanks gives one space token in the middle of a line and nothing after a control word, after a
+   space or at a line start; a newline gives a space, nothing, or one paragraph token (never two in a row); a comment is
+   removed through its newline and the next line starts afresh. *)
+Theorem C01_items_tokenize :
+  forall (t : table) (l : list item), items_ok t l = true -> tokenize t (print_items l) = RToks (lex_items t SN None l).
+Proof. exact items_tokenize. Qed.
+Example C01_items_example :   (* \foo  ab % c<nl><nl><nl>x{ ~   under the default table *)
+  let l := [ICtrlWord 92 102 [111; 111]; IBlanks 32 [32]; IChar 97; IChar 98; IBlanks 32 []; IComment 37 [32; 99]; IEol; IEol;
+            IChar 120; IChar 123; IBlanks 32 []; IActive 126] in
+  items_ok default_table l = true /\ lex_items default_table SN None l =
+    [Tok 0 [102; 111; 111]; Tok 11 [97]; Tok 11 [98]; Tok 10 [32]; Tok 0 [112; 97; 114]; Tok 11 [120]; Tok 1 [123]; Tok 10 [32];
+     Tok 0 [97; 99; 116; 105; 118; 101; 58; 58; 126]].
+Proof. vm_compute. split; reflexivity. Qed.
 
 (* regenerated-table obligations *)
 Theorem C01_gen_chain_complete :
